@@ -403,8 +403,18 @@ void mythv_alloc(int kind, void * p, size_t sz, int rank) {
     char * lo, * hi, * lo2, * hi2; lg_range(e, &lo, &hi);
     for (int i = 0; i < lg_n; i++) {
       struct lg * o = &LG[i];
-      if (o == e || o->kind != mythv_k_stack || o->state != LG_OWNED) continue;
+      if (o == e || o->kind != mythv_k_stack) continue;
       lg_range(o, &lo2, &hi2);
+      if (o->state != LG_OWNED) {
+	/* a block the allocator got back earlier: handing out memory that straddles it means it was
+	   released at a wrong address or with a wrong size class */
+	if (lo < hi2 && lo2 < hi && !(lo == lo2 && hi == hi2) && !(lo >= lo2 && hi <= hi2 && o->sz == 0 && e->sz == 0)) {
+	  char b[240]; snprintf(b, sizeof b, "stack [%p,%p) (size %zu) handed out partially overlaps a previously released stack block [%p,%p) (size %zu): released at a wrong address or into a wrong size class",
+				lo, hi, e->sz, lo2, hi2, o->sz);
+	  finish_verdict(MV_VIOLATION, b);
+	}
+	continue;
+      }
       if (lo < hi2 && lo2 < hi) {
 	char b[200]; snprintf(b, sizeof b, "stacks of two live threads overlap: [%p,%p) size %zu and [%p,%p) size %zu",
 			      lo, hi, e->sz, lo2, hi2, o->sz);
